@@ -132,3 +132,65 @@ def mask_needs_power_of_two(ctx, fx, files, rule="R-WRAP.pow2"):
                           % (masks[0][0].rsplit("::", 1)[-1], masks[0][1], st.rsplit("::", 1)[-1]), fx.raw(masks[0][0])["file"], masks[0][1])
     ctx.instance(rule + ".structs", n)
     return n
+
+
+# ------------------------------------------------------------------ R-CLEAR.cursors
+def _const_cursor_stores(fn, struct_path, cursors):
+    """[(loc, cursor, line)] of stores of a constant into a cursor field: plain assignment or Atomic::store(const)"""
+    from rules.queue import field_of_receiver
+    out = []
+    for loc, st in fn.iter_locs():
+        if st[0] == "a" and len(st[1]) >= 2 and isinstance(st[1][-1], str) and st[2][0] == "use" and op_const(st[2][1]) is not None:
+            for c in cursors:
+                if st[1][-1] == ".%s::%s" % (struct_path, c):
+                    out.append((loc, c, st[3], True))
+        elif st[0] == "a" and len(st[1]) >= 2 and isinstance(st[1][-1], str):
+            for c in cursors:
+                if st[1][-1] == ".%s::%s" % (struct_path, c):
+                    out.append((loc, c, st[3], False))
+        elif st[0] == "call" and st[1]["f"].endswith("::store") and "atomic" in st[1]["f"] and len(st[1]["a"]) >= 2:
+            r = op_local(st[1]["a"][0])
+            if r is None:
+                continue
+            for c in field_of_receiver(fn, r, struct_path) & set(cursors):
+                out.append((loc, c, st[1]["ln"], op_const(st[1]["a"][1]) is not None))
+    return out
+
+
+def clear_resets_both_cursors(ctx, fx, file, struct_path, cursors=("head", "tail"), method="clear", rule="R-CLEAR.cursors"):
+    """Where `clear` rewinds one ring cursor to a constant, the other cursor is stored as well - before it, or on every path
+    from it to a normal return: head and tail are only meaningful as a pair (the next push writes at tail, the next pop reads at
+    head), so a fast path that rewinds one of them leaves the ring pointing at the wrong slots."""
+    n = 0
+    for fid in fx.fn_ids(file):
+        if "::tests::" in fid or "{closure" in fid or fid.rsplit("::", 1)[-1] != method:
+            continue
+        rec = fx.raw(fid)
+        if not (rec.get("self_ty") or "").split("<")[0].endswith(struct_path):
+            continue
+        fn = Fn(rec)
+        n += 1
+        ctx.analysed_fns.add(fid)
+        stores = _const_cursor_stores(fn, struct_path, cursors)
+        exits = set(fn.exits())
+        for loc, c, ln, is_const in stores:
+            if not is_const:
+                continue
+            for other in cursors:
+                if other == c:
+                    continue
+                ol = [s[0] for s in stores if s[1] == other]
+                ok = any(fn.loc_dominates(o, loc) for o in ol)
+                if not ok:
+                    b, i = loc
+                    same = any(ob == b and oi > i for ob, oi in ol)
+                    ok = same or not (fn.reachable_from(fn.succ(b), avoid={ob for ob, _ in ol}) & exits) and b not in exits
+                ctx.obligation(rule, fid, "%s rewound together with %s" % (other, c), ok,
+                               sample={"fn": fid, "line": ln, "rewound": c, "companion": other, "companion_stores": len(ol)})
+                if not ok:
+                    ctx.violation(rule, fid, "%s rewound without %s" % (c, other),
+                                  "clear() stores a constant into %s (line %s) on a path that never stores %s: the two cursors describe "
+                                  "one ring, so the next push and the next pop address different slots than the ones the queue "
+                                  "considers empty / occupied" % (c, ln, other), fn.file, ln)
+    ctx.instance(rule + ".clears", n)
+    return n
